@@ -96,6 +96,12 @@ def coherence_kauri(model, info, X):
     from gemclus.tree.kauri import Tree
     if not isinstance(getattr(model, "tree_", None), Tree):
         bad.append(("tree", "no tree_ after fit", "Tree", repr(getattr(model, "tree_", None))))
+        return bad
+    # "predict reproduces labels_ on the training data" is stated for every estimator: the tree must route every training row to
+    # the cluster fit recorded for it (rows with equal values on the split feature included)
+    pred = np.asarray(model.predict(np.asarray(X, dtype=np.float64)))
+    if pred.shape == lab.shape and not (pred == lab).all():
+        bad.append(("predict-labels", f"predict(X_train) differs from labels_ on {int((pred != lab).sum())} of {n} samples", lab.tolist(), pred.tolist()))
     return bad
 
 
